@@ -59,6 +59,18 @@ pub fn lanes() -> Vec<Lane> {
     v.push(fault_lane());
     v.push(frame_lane());
     v.push(Lane {
+        prop: "C11",
+        family: "HOSTILE",
+        gen: gen::gen_hostile,
+        cfg: cfg_small_stack,
+        check: oracle::check_c11,
+        nontrivial: hostile_nontrivial,
+        rule: "seeded HOSTILE scenarios (1-3 pending single operations or searches; one hostile item spliced in at a response frame boundary, followed by the valid replies; the server closes one simulated second after its last byte): random bytes, bit flips, every single-field mutation of a valid frame (outer tag/class/form, message ID missing / wrong tag / constructed / empty, protocolOp missing, inner lengths inflated and truncated, outer length inflated and truncated, operations of the wrong kind for the ID, oversize and indefinite length octets, malformed control lists and result bodies, huge announced length), nesting depths 10 .. 200 000; each run on a thread with a 2 MiB stack inside a supervised worker process; non-trivial = the hostile item was delivered while a call was waiting; distinct = distinct (mutation class, history-shape) pairs",
+        expand: None,
+        quick: 60_000,
+        thorough: 1_500_000,
+    });
+    v.push(Lane {
         prop: "C14",
         family: "SYNC",
         gen: gen::gen_sync,
@@ -270,6 +282,15 @@ fn sync_nontrivial(sc: &Scenario, rr: &RunResult) -> bool {
         || rr.requests.iter().any(|q| q.ctrls.is_some())
         || sc.clients[0].steps.iter().any(|s| matches!(s, crate::scenario::Step::Open { .. } | crate::scenario::Step::SetMods { .. }))
         || rr.hist.iter().any(|e| matches!(&e.kind, EvKind::Return { ret: crate::world::Ret::Err(crate::world::ErrC::Timeout), .. }))
+}
+
+fn cfg_small_stack(_sc: &Scenario, c: &mut RunCfg) {
+    c.stack_kib = Some(2048);
+    c.watchdog_ms = 600_000;
+}
+
+fn hostile_nontrivial(_sc: &Scenario, rr: &RunResult) -> bool {
+    rr.hist.iter().any(|e| matches!(&e.kind, EvKind::SrvEmit { label, .. } if label == "hostile"))
 }
 
 fn cfg_strict_stream(_sc: &Scenario, c: &mut RunCfg) {
@@ -524,7 +545,7 @@ fn expand_fault(lane: &Lane, verif_seed: u64, index: u64) -> Vec<Case> {
     // undecodable frame at every frame boundary
     for j in 0..n_emissions {
         let mut sc = base.clone();
-        sc.plan.hostile = Some(Hostile { before_emission: j, class: "not-a-sequence".into(), bytes: vec![0x04, 0x01, 0x00], must_end: true });
+        sc.plan.hostile = Some(Hostile { before_emission: j, class: "not-a-sequence".into(), bytes: vec![0x04, 0x01, 0x00], must_end: true, nest: None, outer_inflated: false });
         let k = out.len() as u64;
         out.push(Case { sc, trace: Some(rref.trace.clone()), sched_seed: mix(&[s.sched, k, 6]), cfg: RunCfg { diverge_seed: Some(mix(&[s.sched, k, 5])), ..cfg0() }, label: format!("undecodable-before-emission#{j}") });
     }
